@@ -208,6 +208,7 @@ func main() {
 	}
 	space.Summarize(r, results)
 	virtualContainers(r)
+	deepHeaps(r)
 	var cs []string
 	for _, k := range comparators(r) {
 		cs = append(cs, k.String())
@@ -221,6 +222,7 @@ func main() {
 		fmt.Sprintf("small scope: values {0,1,2}, at most %d elements (growing operations are not offered at the cap), start slices of length <= 4 and every arrangement of length = the size cap, Init arguments of length <= 4, comparators %v", sizeCap(r), cs),
 		"equivalent departed handles (owner nil, index -1) are represented by the most recently departed one; one handle of a second one-element heap stands for all foreign handles",
 		"live handles are named by their position in Heap's private backing array (read through reflect), which merges states that differ only in the order of the harness table; every departed handle is checked for Index() == -1 at the moment it departs",
+		"deep heaps: every heap-ordered arrangement over {0,1,2} of 12 and 13 (thorough also 14, 15) values, one Remove / Fix deep — larger heaps and longer histories on them are outside",
 		"generic functions: Pop only on a non-empty container and Remove/Fix only at indices 0..Len()-1 (the property text says nothing about other indices there; they behave like container/heap); zero-value Heap/Slice without a comparator are not constructed heaps and are not exercised",
 	)
 	r.Finish("states = distinct canonical dumps of comparator + private object graph + handle table (live handles in backing order, stale, foreign); every transition is one real call compared with a multiset/handle-table model that follows the implementation's tie-breaking (the returned element is checked to be minimal and then removed from the model), followed by the battery Len / Index of every handle / backing-set equality / heap order (Slice, container) / Peek / destructive PopAll (sorted permutation); non-trivial = every distinct state")
